@@ -7,6 +7,7 @@ from hypothesis import strategies as st
 
 from ..core import Info, close, require, subcheck
 from .. import declm
+from .. import declayout as dl
 from ..oracles import c05_ctc as ref
 
 NEG_INF = float("-inf")
@@ -16,20 +17,39 @@ TINY = 1e-30  # float32 results may underflow to zero below this; no positivity 
 # ------------------------------------------------------------------------- running the library
 
 
-def run_search(case, elems=None):
-    """Call the real CTCPrefixSearch on the whole batch (or on the listed elements' own valid frames)."""
-    import torch
+def build_search(case):
     from pydrobert.torch.modules import CTCPrefixSearch
 
-    T, V, N = case["T"], case["V"], case["N"]
     fusion, beta = case["fusion"], case["beta_q"] / 4
     lm = declm.HashLM(case["lm"]) if fusion != "none" else None
-    search = CTCPrefixSearch(case["width"], beta, lm, valid_mixture=(fusion == "valid"))
-    logits = (torch.tensor(case["logits"], dtype=torch.float32) / 4).view(T, N, V + 1)
+    return CTCPrefixSearch(case["width"], beta, lm, valid_mixture=(fusion == "valid"))
+
+
+def run_search(case, elems=None, search=None):
+    """Call the real CTCPrefixSearch on the whole batch (or on the listed elements' own valid frames).
+    `search` = an existing module to use again (call-pattern classes); otherwise a fresh one per call of this function."""
+    import torch
+
+    T, V, N = case["T"], case["V"], case["N"]
+    if search is None:
+        search = build_search(case)
+    has_lm = case["fusion"] != "none"
+    dtype = torch.float64 if case.get("dtype") == "float64" else torch.float32
+    logits = (torch.tensor(case["logits"], dtype=dtype) / 4).view(T, N, V + 1)
     lens = case["lens"]
     if elems is None:
-        lens_t = None if lens is None else torch.tensor(lens, dtype=torch.long)
-        init = {"cond": torch.tensor(case["conds"], dtype=torch.long)} if lm is not None else None
+        fill = case.get("past_fill")
+        if fill is not None and lens is not None:
+            # frames past an element's length are documented as not valid: whatever batching code left there
+            for n in range(N):
+                logits[lens[n]:, n] = float(fill)
+        logits = dl.relayout(logits, case.get("layout", "contiguous"))
+        if lens is None:
+            lens_t = None
+        else:
+            lens_t = torch.tensor(lens, dtype=torch.int32 if case.get("lens_dtype") == "int32" else torch.long)
+            lens_t = dl.relayout(lens_t, case.get("lens_layout", "contiguous"))
+        init = {"cond": torch.tensor(case["conds"], dtype=torch.long)} if has_lm else None
         if init is None and case.get("omit_state", True):
             return search(logits, lens_t)
         return search(logits, lens_t, init if init is not None else dict())
@@ -37,7 +57,7 @@ def run_search(case, elems=None):
     for n in elems:
         L = T if lens is None else lens[n]
         lg = logits[:L, n:n + 1]
-        init = {"cond": torch.tensor([case["conds"][n]], dtype=torch.long)} if lm is not None else dict()
+        init = {"cond": torch.tensor([case["conds"][n]], dtype=torch.long)} if has_lm else dict()
         out.append(search(lg, torch.tensor([L]), init))
     return out
 
@@ -45,10 +65,11 @@ def run_search(case, elems=None):
 def slots_of(y, y_lens, probs, n, width):
     S = y.size(0)
     out = []
+    pl, ll = probs[n].tolist(), y_lens[n].tolist()
     for k in range(width):
-        p = float(probs[n, k])
-        L = int(y_lens[n, k])
-        toks = tuple(int(v) for v in y[: max(0, min(L, S)), n, k])
+        p = float(pl[k])
+        L = int(ll[k])
+        toks = tuple(y[: max(0, min(L, S)), n, k].tolist()) if p > 0.0 else ()
         out.append((toks, L, p))
     return out
 
@@ -76,16 +97,29 @@ def element_ext(case, n):
     return ref.make_ext(fusion, beta, lm_probs)
 
 
-def check_element(case, n, slots, S, cl):
+ENUM_LIMIT = 20000  # alignments enumerated per element; beyond that only the width-W recursion is the oracle
+
+
+def check_element(case, n, slots, S, cl, enum_limit=ENUM_LIMIT):
     V, W = case["V"], case["width"]
     frames = element_frames(case, n)
     L = len(frames)
     ext = element_ext(case, n)
-    exact = ref.exact_masses(frames, V, ext)
+    enumerate_exact = (V + 1) ** L <= enum_limit
+    exact = ref.exact_masses(frames, V, ext) if enumerate_exact else None
     # float32: the valid mixture computes 1 - p(blank), which is only accurate to about 6e-8 absolutely per frame;
     # every other quantity is a product / sum of softmax outputs and keeps float32 relative accuracy
     atol = 1e-6 if (case["fusion"] == "valid" and case["beta_q"] > 0) else TINY
-    beam, info = ref.beam_reference(frames, V, W, ext, tie_abs=atol)
+    # rounding accumulates over the frames (a few float32 operations per frame): the relative tolerances and the
+    # near-tie threshold of the reference grow with the number of frames (unchanged for the short inputs)
+    ulp = 8 * L * 2.0 ** -24
+    rel_exact, rel_pruned, tie_rel = max(2e-5, ulp), max(1e-4, ulp), max(1e-6, 4 * ulp)
+    beam, info = ref.beam_reference(frames, V, W, ext, tie_rel=tie_rel, tie_abs=atol)
+    if exact is None:
+        cl.add("no_enumeration")
+        if not info["pruned"]:
+            # without pruning the recursion is the exact dynamic programme over alignments
+            exact = {l: m for l, m in beam}
     probs = [p for _, _, p in slots]
     require(not any(math.isnan(p) for p in probs), "element %d: a slot has NaN probability" % n, probs, "no NaN")
     for k in range(W - 1):
@@ -104,10 +138,11 @@ def check_element(case, n, slots, S, cl):
             seen_nonpos = True
     pre = [t for t, _ in positive]
     require(len(set(pre)) == len(pre), "element %d: a prefix with positive mass occurs twice" % n, [list(t) for t in pre], "distinct")
-    for toks, p in positive:
-        ex = exact.get(toks, 0.0)
-        require(p <= ex * (1 + 1e-4) + atol, "element %d: reported mass of %s exceeds the exact total over alignments" % (n, list(toks)),
-                p, ex)
+    if exact is not None:
+        for toks, p in positive:
+            ex = exact.get(toks, 0.0)
+            require(p <= ex * (1 + max(1e-4, ulp)) + atol, "element %d: reported mass of %s exceeds the exact total over alignments" % (n, list(toks)),
+                    p, ex)
     got = dict(positive)
     if not info["pruned"]:
         # nothing had to be pruned: the exact mass of every prefix
@@ -116,7 +151,7 @@ def check_element(case, n, slots, S, cl):
             if ex > 2 * atol:
                 require(toks in got, "element %d: unpruned search misses prefix %s" % (n, list(toks)), sorted(map(list, got)), ex)
         for toks, p in positive:
-            require(close(p, exact.get(toks, 0.0), rel=2e-5, abs_=atol), "element %d: mass of %s != exact total over alignments" % (n, list(toks)),
+            require(close(p, exact.get(toks, 0.0), rel=rel_exact, abs_=atol), "element %d: mass of %s != exact total over alignments" % (n, list(toks)),
                     p, exact.get(toks, 0.0))
     elif not info["ambiguous"]:
         cl.add("pruned_unambiguous")
@@ -130,7 +165,7 @@ def check_element(case, n, slots, S, cl):
                 continue
             require(toks in exp, "element %d: prefix %s is not kept by the width-%d recursion" % (n, list(toks), W),
                     sorted(map(list, got)), sorted(map(list, exp)))
-            require(close(p, exp[toks], rel=1e-4, abs_=atol), "element %d: mass of %s != mass assigned by the width-%d recursion" % (n, list(toks), W),
+            require(close(p, exp[toks], rel=rel_pruned, abs_=atol), "element %d: mass of %s != mass assigned by the width-%d recursion" % (n, list(toks), W),
                     p, exp[toks])
     else:
         cl.add("pruned_near_tie")
@@ -166,7 +201,8 @@ def _search_cases(tier, width_mode="any", fusion_mode="any"):
         T = draw(st.sampled_from([3, 5, 4, 2, 1, 0, 6, 7]))
         T = min(T, maxT[V])
         N = draw(st.sampled_from([2, 1, 3]))
-        kind = draw(st.sampled_from(["generic", "dominant", "identical_frames", "tiny_prob", "zero_prob", "generic"]))
+        kind = draw(st.sampled_from(["generic", "dominant", "identical_frames", "tiny_prob", "zero_prob", "generic", "prob_one",
+                                     "tied_labels"]))
         frame = st.lists(st.integers(-12, 12), min_size=V + 1, max_size=V + 1)
         logits = [[list(draw(frame)) for _ in range(N)] for _ in range(T)]
         if kind == "dominant" and T:
@@ -186,6 +222,17 @@ def _search_cases(tier, width_mode="any", fusion_mode="any"):
             for _ in range(draw(st.sampled_from([1, 2]))):
                 t0, n0, v0 = draw(st.integers(0, T - 1)), draw(st.integers(0, N - 1)), draw(st.integers(0, V))
                 logits[t0][n0][v0] = -480
+        if kind == "prob_one" and T:
+            # logit +-1e6: in float32 and in float64 alike the label's probability is exactly 1 (0 for every other label)
+            for _ in range(draw(st.sampled_from([1, 2]))):
+                t0, n0, v0 = draw(st.integers(0, T - 1)), draw(st.integers(0, N - 1)), draw(st.integers(0, V))
+                logits[t0][n0][v0] = draw(st.sampled_from([4000000, -4000000, 4000000]))
+        if kind == "tied_labels" and V >= 2:
+            # two labels with the same score in every frame: prefixes that differ by swapping them have exactly equal mass
+            a, b = draw(st.sampled_from([(0, 1), (0, V - 1), (V - 1, V - 2)]))
+            for t in range(T):
+                for n in range(N):
+                    logits[t][n][b] = logits[t][n][a]
         lens = draw(st.one_of(st.lists(st.integers(0, T), min_size=N, max_size=N), st.none()))
         R = reachable(V, T)
         if width_mode == "wide":
@@ -200,13 +247,25 @@ def _search_cases(tier, width_mode="any", fusion_mode="any"):
         case = {"T": T, "V": V, "N": N, "logits": logits, "lens": lens, "width": width, "fusion": fm, "kind": kind,
                 "beta_q": 0, "lm": None, "conds": None}
         if fm != "none":
-            spec = draw(declm.lm_specs(V, V, max_cond=2, lo=-8, hi=8))
+            # (one fused model in five gives some tokens probability exactly zero in some states)
+            spec = draw(declm.lm_specs(V, V, max_cond=2, lo=-8, hi=8, zero_prob=draw(st.sampled_from([False] * 4 + [True]))))
             case["lm"] = spec
             case["conds"] = draw(st.lists(st.integers(0, len(spec["cond"]) - 1), min_size=N, max_size=N))
             case["beta_q"] = draw(st.sampled_from([2, 1, 4, 0] if fusion_mode != "lm" else [2, 1, 4, 3]))
         else:
             case["beta_q"] = draw(st.sampled_from([1, 0, 4]))  # beta without a model must change nothing
             case["omit_state"] = draw(st.booleans())
+        # memory layout / dtype of the tensor arguments (same values)
+        case["layout"] = draw(st.sampled_from(dl.LAYOUT_CHOICES))
+        case["dtype"] = draw(st.sampled_from(["float32", "float32", "float64"]))
+        if lens is not None:
+            case["lens_layout"] = draw(st.sampled_from(["contiguous", "offset", "strided"]))
+            case["lens_dtype"] = draw(st.sampled_from(["int64", "int64", "int32"]))
+            # what sits in the frames past an element's length
+            case["past_fill"] = draw(st.sampled_from([None, "nan", "-inf", "inf", 1e30, -1e30, "nan"]))
+        # call pattern: a module per call / one module (and one fused model object) for the batched call, every solo call and
+        # the batched call again / the same with train()-eval() switches in between
+        case["pattern"] = draw(st.sampled_from(["fresh", "shared", "shared_modes"]))
         return case
 
     return _s()
@@ -215,22 +274,46 @@ def _search_cases(tier, width_mode="any", fusion_mode="any"):
 # ------------------------------------------------------------------------------- sub-checks
 
 
-def _search_check(case):
+def _same_output(a, b, S_lens):
+    """Bitwise-equal results in everything the documentation defines (tokens only inside the reported lengths)."""
+    import torch
+
+    (ya, la, pa), (yb, lb, pb) = a, b
+    if ya.shape != yb.shape or not torch.equal(la, lb):
+        return False
+    if not torch.equal(pa.nan_to_num(nan=-7.0), pb.nan_to_num(nan=-7.0)):
+        return False
+    mask = torch.arange(ya.size(0)).view(-1, 1, 1) < la.unsqueeze(0)
+    return bool(((ya == yb) | ~mask).all())
+
+
+def _search_check(case, enum_elems=None, solo_elems=None):
     T, V, N, W = case["T"], case["V"], case["N"], case["width"]
-    y, y_lens, probs = run_search(case)
+    cl = set()
+    pattern = case.get("pattern", "fresh")
+    shared = build_search(case) if pattern != "fresh" else None
+    toggle = [0]
+
+    def run(elems=None):
+        if pattern == "shared_modes":
+            toggle[0] += 1
+            shared.train(toggle[0] % 2 == 0)
+        return run_search(case, elems, search=shared)
+
+    y, y_lens, probs = first = run()
     require(y.dim() == 3 and list(y.shape[1:]) == [N, W] and y.size(0) <= T, "shape of y", list(y.shape), ["<=%d" % T, N, W])
     require(list(y_lens.shape) == [N, W] and list(probs.shape) == [N, W], "shapes of y_lens / y_probs",
             [list(y_lens.shape), list(probs.shape)], [N, W])
-    cl = set()
     S = y.size(0)
-    per_elem = []
-    for n in range(N):
+    per_elem = {}
+    for n in (range(N) if enum_elems is None else enum_elems):
         slots = slots_of(y, y_lens, probs, n, W)
-        per_elem.append((slots, check_element(case, n, slots, S, cl)))
+        per_elem[n] = (slots, check_element(case, n, slots, S, cl))
     # an element's result equals that of searching its own valid frames alone
     if N >= 2 or case["lens"] is not None:
-        solo = run_search(case, elems=list(range(N)))
-        for n, (ys, ls, ps) in enumerate(solo):
+        which = sorted(per_elem) if solo_elems is None else [n for n in solo_elems if n in per_elem]
+        solo = run(elems=which)
+        for n, (ys, ls, ps) in zip(which, solo):
             sslots = slots_of(ys, ls, ps, 0, W)
             spos = [(t, p) for t, _, p in sslots if p > 0.0]
             bpos = per_elem[n][1]
@@ -242,6 +325,13 @@ def _search_check(case):
                 if all(abs(p - q) > 1e-4 * max(p, q) for q in others):
                     require(spos[i][0] == t, "element %d: batched and solo searches disagree on slot %d" % (n, i),
                             list(t), list(spos[i][0]))
+    if shared is not None:
+        cl.add("module_reused")
+        if pattern == "shared_modes":
+            cl.add("train_eval_toggled")
+        again = run()
+        require(_same_output(first, again, None), "the same call on the same module returns something else the second time",
+                [t.tolist() for t in again[1:]], [t.tolist() for t in first[1:]])
     lens = case["lens"]
     if lens is not None and len(set(lens)) >= 2:
         cl.add("mixed_lengths")
@@ -256,9 +346,27 @@ def _search_check(case):
         cl.add("fusion_active")
         if case["lm"]["M"] >= 2:
             cl.add("stateful_fused_lm")
+        if case["lm"].get("ninf"):
+            cl.add("fused_lm_zero_prob")
     cl.add("logits_" + case["kind"])
+    if case.get("layout", "contiguous") != "contiguous":
+        cl.add("layout_" + case["layout"])
+    if lens is not None and case.get("lens_layout", "contiguous") != "contiguous":
+        cl.add("lens_layout_" + case["lens_layout"])
+    if lens is not None and case.get("lens_dtype") == "int32":
+        cl.add("lens_int32")
+    if case.get("dtype") == "float64":
+        cl.add("float64_logits")
+    if lens is not None and case.get("past_fill") is not None and any(l < T for l in lens):
+        cl.add("garbage_past_length")
+        if case["past_fill"] in ("nan", "-inf", "inf"):
+            cl.add("non_finite_past_length")
     nontrivial = bool({"width_exceeds_live_prefixes", "merge_event", "mixed_lengths", "fusion_active"} & cl)
     return Info(nontrivial=nontrivial, classes=sorted(cl))
+
+
+def _search_check_all(case):
+    return _search_check(case)
 
 
 subcheck("C05", "search", lambda tier: _search_cases(tier), 1200, 30000,
@@ -266,24 +374,37 @@ subcheck("C05", "search", lambda tier: _search_cases(tier), 1200, 30000,
              "(longer for smaller V), "
              "V 1..3 (+blank), N 1..3, lens unset or mixed incl. 0, widths 1..far beyond, fusion none/shallow/valid mixture with a "
              "HashLM; oracle = complete alignment enumeration (exact mass) + dictionary prefix-beam recursion of the same width; "
-             "batched vs solo",
+             "batched vs solo. Also: a logit of +-1e6 (probability exactly 1/0), two labels tied in every frame; logits as offset / "
+             "column-slice / transposed / strided views and as float64, lens as offset / strided views and int32; NaN / +-inf / "
+             "+-1e30 in the frames past each length; one module object for the batched call, the solo calls and the batched call "
+             "again (identical), optionally with train()/eval() switches",
          required_classes=["width_exceeds_live_prefixes", "merge_event", "mixed_lengths", "fusion_active", "never_pruned",
-                           "pruned_unambiguous", "zero_length_element", "logits_tiny_prob", "logits_zero_prob"])(_search_check)
+                           "pruned_unambiguous", "zero_length_element", "logits_tiny_prob", "logits_zero_prob", "logits_prob_one",
+                           "logits_tied_labels", "layout_offset", "layout_transposed", "layout_col_slice", "layout_strided",
+                           "lens_layout_offset", "lens_layout_strided", "lens_int32", "float64_logits", "garbage_past_length",
+                           "non_finite_past_length", "module_reused", "train_eval_toggled"])(_search_check_all)
 
 subcheck("C05", "wide", lambda tier: _search_cases(tier, width_mode="wide", fusion_mode="none"), 800, 20000,
          doc="widths from the number of reachable prefixes to far beyond it, no fusion: exact mass for every prefix, empty slots "
              "carry 0/-inf behind the real ones, no NaN, no duplicates",
          required_classes=["width_exceeds_live_prefixes", "width_beyond_all_steps", "never_pruned", "neg_inf_slot",
-                           "input_of_5_or_more_frames"])(_search_check)
+                           "input_of_5_or_more_frames", "layout_offset", "layout_transposed", "non_finite_past_length",
+                           "module_reused"])(_search_check_all)
 
 subcheck("C05", "fused", lambda tier: _search_cases(tier, fusion_mode="lm"), 800, 20000,
          doc="shallow fusion and valid mixture with beta in {0.25, 0.5, 0.75, 1} and a HashLM whose state lives only in prev "
-             "(extract_by_src / mix_by_mask must follow the surviving prefixes): same oracles with the fused extension scores",
+             "(extract_by_src / mix_by_mask must follow the surviving prefixes): same oracles with the fused extension scores; one "
+             "fused model in five gives some tokens probability exactly zero; layouts / garbage past the lengths / module reuse as in `search`",
          required_classes=["fusion_active", "stateful_fused_lm", "fusion_shallow", "fusion_valid", "pruned_unambiguous",
-                           "width_exceeds_live_prefixes"])(_search_check)
+                           "width_exceeds_live_prefixes", "fused_lm_zero_prob", "layout_offset", "layout_transposed",
+                           "non_finite_past_length", "module_reused", "train_eval_toggled", "float64_logits"])(_search_check_all)
 
 
 # ------------------------------------------------------------------ the step function
+
+
+JUNK_IDS = [-1, -5, 1 << 40, -(1 << 62), (1 << 63) - 1]
+ADV_TENSORS = ["ext", "nonext", "blank", "nb", "b", "y", "last", "lens", "isp"]
 
 
 def _advance_cases(tier):
@@ -293,6 +414,7 @@ def _advance_cases(tier):
         N = draw(st.sampled_from([1, 2]))
         Kp = draw(st.sampled_from([2, 3, 1, 4]))
         pref = st.lists(st.integers(0, V - 1), min_size=0, max_size=3).map(tuple)
+        shared_ext = draw(st.sampled_from([False, False, True]))
         elems = []
         for _ in range(N):
             ps = draw(st.lists(pref, min_size=Kp, max_size=Kp, unique=True))
@@ -305,13 +427,29 @@ def _advance_cases(tier):
             nb = [0 if not p else draw(st.integers(0, 8)) for p in ps]
             b = [draw(st.integers(0, 8)) for _ in ps]
             ext = [[draw(st.integers(1, 8)) for _ in range(V)] for _ in ps]
+            if shared_ext:
+                ext = [list(ext[0]) for _ in ps]
             nonext = [draw(st.integers(1, 8)) for _ in range(V)]
             blank = draw(st.integers(1, 8))
             junk_last = draw(st.integers(0, V - 1))
             elems.append({"prefixes": [list(p) for p in ps], "nb": nb, "b": b, "ext": ext, "nonext": nonext, "blank": blank,
                           "junk_last": junk_last})
         width = draw(st.integers(1, Kp * (V + 1) + 3))
-        return {"V": V, "N": N, "Kp": Kp, "elems": elems, "width": width, "extra_row": draw(st.booleans())}
+        case = {"V": V, "N": N, "Kp": Kp, "elems": elems, "width": width, "extra_row": draw(st.booleans())}
+        # memory layout of each of the nine tensor arguments; the extension scores as the stride-0 view the module itself passes
+        lay = st.sampled_from(dl.LAYOUT_CHOICES)
+        case["layouts"] = {k: draw(lay) for k in ADV_TENSORS}
+        if shared_ext:
+            case["layouts"]["ext"] = "expanded"
+        # ids stored past a prefix's length and the "last token" of an empty prefix are documented as arbitrary
+        case["junk"] = draw(st.sampled_from([None] + JUNK_IDS + JUNK_IDS))
+        case["dtype"] = draw(st.sampled_from(["float32", "float32", "float64"]))
+        # trailing beam slots that hold no prefix (what the step function itself appends when the width exceeds the
+        # candidates): non-blank mass -inf, blank mass -inf or 0, length 0, anything in the token columns
+        ninv = draw(st.sampled_from([0, 0, 1, 2]))
+        if ninv:
+            case["invalid"] = [draw(st.sampled_from(["-inf", "0"])) for _ in range(ninv)]
+        return case
 
     return _s()
 
@@ -320,50 +458,72 @@ def _is_prefix(a, b):
     return len(a) <= len(b) and tuple(b[: len(a)]) == tuple(a)
 
 
-@subcheck("C05", "advance", _advance_cases, 1500, 30000,
-          doc="ctc_prefix_search_advance on a generated beam of distinct prefixes with dyadic blank / non-blank masses and dyadic frame "
-              "scores (all arithmetic exact): the valid slots are the best candidates of one dictionary step (merge of an extension "
-              "into an identical prefix included) with exactly their (non-blank, blank) masses; lengths, last tokens, sources and the "
-              "prefix-relation matrix are consistent; slots beyond the candidates carry -inf",
-          required_classes=["merge", "width_beyond_candidates", "prunes", "batch_2"])
-def _advance_check(case):
+def _advance_core(case):
     import torch
     from pydrobert.torch.functional import ctc_prefix_search_advance
 
-    V, N, Kp, W = case["V"], case["N"], case["Kp"], case["width"]
+    V, N, Kv, W = case["V"], case["N"], case["Kp"], case["width"]
+    inval = case.get("invalid") or []
+    Kp = Kv + len(inval)  # old beam width including the slots that hold no prefix
+    lay = case.get("layouts", {})
+    dtype = torch.float64 if case.get("dtype") == "float64" else torch.float32
+    junk = case.get("junk")
+    cl = set()
     S = max(len(p) for e in case["elems"] for p in e["prefixes"]) + (1 if case["extra_row"] else 0)
     y_prev = torch.zeros((S, N, Kp), dtype=torch.long)
     lens = torch.zeros((N, Kp), dtype=torch.long)
     last = torch.zeros((N, Kp), dtype=torch.long)
     isp = torch.zeros((N, Kp, Kp), dtype=torch.bool)
-    nb = torch.zeros((N, Kp))
-    b = torch.zeros((N, Kp))
-    ext = torch.zeros((N, Kp, V))
-    nonext = torch.zeros((N, V))
-    blank = torch.zeros((N,))
+    nb = torch.zeros((N, Kp), dtype=dtype)
+    b = torch.zeros((N, Kp), dtype=dtype)
+    ext = torch.zeros((N, Kp, V), dtype=dtype)
+    nonext = torch.zeros((N, V), dtype=dtype)
+    blank = torch.zeros((N,), dtype=dtype)
+    if junk is not None:
+        y_prev.fill_(junk)
     for n, e in enumerate(case["elems"]):
         for k, p in enumerate(e["prefixes"]):
-            for t, v in enumerate(p):
-                y_prev[t, n, k] = v
+            if len(p):
+                y_prev[: len(p), n, k] = torch.tensor(p, dtype=torch.long)
+            if len(p) < S and junk is not None:
+                cl.add("junk_past_prefix_length")
             lens[n, k] = len(p)
-            last[n, k] = p[-1] if p else e["junk_last"]
+            last[n, k] = p[-1] if p else (e["junk_last"] if junk is None else junk)
             nb[n, k] = e["nb"][k] / 16
             b[n, k] = e["b"][k] / 16
-            for v in range(V):
-                ext[n, k, v] = e["ext"][k][v] / 8
+            ext[n, k] = torch.tensor(e["ext"][k], dtype=dtype) / 8
             for k2, p2 in enumerate(e["prefixes"]):
                 isp[n, k, k2] = _is_prefix(p, p2)
-        for v in range(V):
-            nonext[n, v] = e["nonext"][v] / 8
+        for j, how in enumerate(inval):
+            k = Kv + j
+            nb[n, k] = NEG_INF
+            b[n, k] = NEG_INF if how == "-inf" else 0.0
+            ext[n, k] = torch.tensor(e["ext"][j % Kv], dtype=dtype) / 8
+            if junk is not None:
+                last[n, k] = junk
+        nonext[n] = torch.tensor(e["nonext"], dtype=dtype) / 8
         blank[n] = e["blank"] / 8
+    if inval:
+        cl.add("slots_without_prefix_in_the_old_beam")
+    if lay.get("ext") == "expanded" and not inval:
+        ext_t = ext[:, :1].expand(N, Kp, V)
+        cl.add("layout_expanded")
+    else:
+        ext_t = dl.relayout(ext, lay.get("ext", "contiguous") if lay.get("ext") != "expanded" else "contiguous")
+    args = {"nonext": nonext, "blank": blank, "nb": nb, "b": b, "y": y_prev, "last": last, "lens": lens, "isp": isp}
+    args = {k: dl.relayout(v, lay.get(k, "contiguous")) for k, v in args.items()}
     (y_next, y_next_last, y_next_lens, (nb_next, b_next), next_isp, next_src, next_nonext) = ctc_prefix_search_advance(
-        (ext, nonext, blank), W, (nb, b), y_prev, last, lens, isp)
+        (ext_t, args["nonext"], args["blank"]), W, (args["nb"], args["b"]), args["y"], args["last"], args["lens"], args["isp"])
     require(list(y_next.shape) == [S + 1, N, W] and list(y_next_lens.shape) == [N, W] and list(nb_next.shape) == [N, W]
             and list(b_next.shape) == [N, W] and list(next_isp.shape) == [N, W, W] and list(next_src.shape) == [N, W]
             and list(next_nonext.shape) == [N, W] and list(y_next_last.shape) == [N, W], "result shapes", list(y_next.shape), [S + 1, N, W])
-    cl = set()
+    require(nb_next.dtype == dtype and b_next.dtype == dtype, "dtype of the returned masses", str(nb_next.dtype), str(dtype))
+    nb_l, b_l, len_l = nb_next.tolist(), b_next.tolist(), y_next_lens.tolist()
+    src_l, nonext_l, last_l = next_src.tolist(), next_nonext.tolist(), y_next_last.tolist()
+    y_l = y_next.permute(1, 2, 0).tolist()
     for n, e in enumerate(case["elems"]):
         ps = [tuple(p) for p in e["prefixes"]]
+        pset = set(ps)
         cand = {}
         merged = False
         for k, p in enumerate(ps):
@@ -374,44 +534,276 @@ def _advance_check(case):
             for v in range(V):
                 m = (e["b"][k] if (p and p[-1] == v) else e["nb"][k] + e["b"][k]) / 16 * e["ext"][k][v] / 8
                 q = p + (v,)
-                if q in ps:
+                if q in pset:
                     merged = True
                 cand.setdefault(q, [0.0, 0.0])[0] += m
         totals = sorted((x + y for x, y in cand.values()), reverse=True)
         m_valid = min(W, len(cand))
-        got_tot = [float(nb_next[n, k] + b_next[n, k]) for k in range(W)]
+        got_tot = [nb_l[n][k] + b_l[n][k] for k in range(W)]
         require(not any(math.isnan(t) for t in got_tot), "NaN mass", got_tot, "no NaN")
         require(got_tot[:m_valid] == totals[:m_valid], "element %d: total masses are not the best candidates of the step, best first" % n,
                 got_tot, totals[:m_valid])
         require(all(t == NEG_INF for t in got_tot[m_valid:]), "element %d: slots beyond the legitimate candidates must carry -inf" % n,
                 got_tot[m_valid:], "-inf")
         seen = []
+        seen_set = set()
         for k in range(m_valid):
-            L = int(y_next_lens[n, k])
+            L = int(len_l[n][k])
             require(0 <= L <= S + 1, "length out of range", L, S + 1)
-            p = tuple(int(v) for v in y_next[:L, n, k])
-            require(p in cand, "element %d slot %d: %s is not a candidate of the step" % (n, k, list(p)), list(p), sorted(map(list, cand)))
-            require(p not in seen, "element %d: prefix %s returned twice" % (n, list(p)), list(p), None)
+            p = tuple(y_l[n][k][:L])
+            require(p in cand, "element %d slot %d: %s is not a candidate of the step" % (n, k, list(p)), list(p),
+                    sorted(map(list, cand)) if len(cand) <= 64 else len(cand))
+            require(p not in seen_set, "element %d: prefix %s returned twice" % (n, list(p)), list(p), None)
             seen.append(p)
-            require([float(nb_next[n, k]), float(b_next[n, k])] == cand[p], "element %d: (non-blank, blank) mass of %s" % (n, list(p)),
-                    [float(nb_next[n, k]), float(b_next[n, k])], cand[p])
-            s = int(next_src[n, k])
-            require(0 <= s < Kp, "next_src out of range", s, Kp)
-            if bool(next_nonext[n, k]):
+            seen_set.add(p)
+            require([nb_l[n][k], b_l[n][k]] == cand[p], "element %d: (non-blank, blank) mass of %s" % (n, list(p)),
+                    [nb_l[n][k], b_l[n][k]], cand[p])
+            s = int(src_l[n][k])
+            require(0 <= s < Kv, "next_src out of range (or a slot without prefix as source)", s, Kv)
+            if bool(nonext_l[n][k]):
                 require(ps[s] == p, "slot marked non-extending differs from its source", list(p), list(ps[s]))
             else:
                 require(p[:-1] == ps[s] and len(p) == len(ps[s]) + 1, "slot marked extending is not source + one token", list(p), list(ps[s]))
             if p:
-                require(int(y_next_last[n, k]) == p[-1], "y_next_last", int(y_next_last[n, k]), p[-1])
-        for k in range(m_valid):
+                require(int(last_l[n][k]) == p[-1], "y_next_last", int(last_l[n][k]), p[-1])
+        # the prefix-relation matrix: every pair for small beams, else the first / last 16 rows and every 16th (sampled)
+        rows = range(m_valid) if m_valid <= 48 else sorted(set(range(16)) | set(range(m_valid - 16, m_valid)) | set(range(0, m_valid, 16)))
+        isp_l = next_isp[n].tolist()
+        for k in rows:
             for k2 in range(m_valid):
-                require(bool(next_isp[n, k, k2]) == _is_prefix(seen[k], seen[k2]), "element %d: next_is_prefix[%d,%d]" % (n, k, k2),
-                        bool(next_isp[n, k, k2]), {"k": list(seen[k]), "k'": list(seen[k2])})
+                require(bool(isp_l[k][k2]) == _is_prefix(seen[k], seen[k2]), "element %d: next_is_prefix[%d,%d]" % (n, k, k2),
+                        bool(isp_l[k][k2]), {"k": list(seen[k]), "k'": list(seen[k2])})
         if merged:
             cl.add("merge")
         if W > len(cand):
             cl.add("width_beyond_candidates")
         if W < len(cand):
             cl.add("prunes")
-    cl.add("batch_%d" % N)
+    cl.add("batch_%d" % N if N <= 2 else "batch_many")
+    cl.update(dl.layout_classes(v for v in lay.values() if v != "expanded"))
+    if case.get("dtype") == "float64":
+        cl.add("float64_masses")
+    return cl
+
+
+@subcheck("C05", "advance", _advance_cases, 1500, 30000,
+          doc="ctc_prefix_search_advance on a generated beam of distinct prefixes with dyadic blank / non-blank masses and dyadic frame "
+              "scores (all arithmetic exact): the valid slots are the best candidates of one dictionary step (merge of an extension "
+              "into an identical prefix included) with exactly their (non-blank, blank) masses; lengths, last tokens, sources and the "
+              "prefix-relation matrix are consistent; slots beyond the candidates carry -inf. Each of the nine tensor arguments also as "
+              "an offset / column-slice / transposed / strided / expanded view; out-of-range and huge ids past the prefix lengths and as "
+              "the last token of an empty prefix; float64 masses; trailing old-beam slots that hold no prefix (-inf mass)",
+          required_classes=["merge", "width_beyond_candidates", "prunes", "batch_2", "layout_offset", "layout_transposed",
+                            "layout_col_slice", "layout_strided", "layout_expanded", "junk_past_prefix_length", "float64_masses",
+                            "slots_without_prefix_in_the_old_beam"])
+def _advance_check(case):
+    cl = _advance_core(case)
     return Info(nontrivial="merge" in cl or "width_beyond_candidates" in cl, classes=sorted(cl))
+
+
+# ---------------------------------------------------------------- sizes at implementation thresholds
+
+
+def _advance_large_cases(tier):
+    hi = 257 if tier == "quick" else 1025
+
+    @st.composite
+    def _s(draw):
+        big = draw(st.sampled_from(["Kp", "V", "width", "N", "S"]))
+        V, N, Kp, S = draw(st.sampled_from([2, 3, 1])), draw(st.sampled_from([1, 2])), draw(st.sampled_from([2, 3, 4, 1])), 3
+        if big == "Kp":
+            Kp = draw(dl.threshold_sizes(15, hi))
+            V = draw(st.sampled_from([2, 3, 4]))
+            width = draw(st.sampled_from([Kp, Kp - 1, Kp + 1, 2, Kp * (V + 1), Kp * (V + 1) + 3, 16, 17, 2 * Kp]))
+        elif big == "V":
+            V = draw(dl.threshold_sizes(15, hi))
+            Kp = draw(st.sampled_from([2, 3, 1, 4]))
+            width = draw(st.sampled_from([2, 1, V, V + 1, V + 2, Kp * (V + 1) + 1, 17]))
+        elif big == "width":
+            width = draw(dl.threshold_sizes(15, hi))
+            V = draw(st.sampled_from([2, 3, 7]))
+            Kp = draw(st.sampled_from([max(1, width // (V + 1)), width // (V + 1) + 2, max(1, width // 2), 5]))
+        elif big == "N":
+            N = draw(dl.threshold_sizes(15, hi))
+            width = draw(st.integers(1, Kp * (V + 1) + 2))
+        else:
+            S = draw(dl.threshold_sizes(15, hi))
+            width = draw(st.integers(1, Kp * (V + 1) + 2))
+        lay = st.sampled_from(dl.LAYOUT_CHOICES)
+        return {"big": big, "V": V, "N": N, "Kp": Kp, "S": S, "width": max(1, width), "seed": draw(st.integers(0, 2 ** 31 - 1)),
+                "layouts": {k: draw(lay) for k in ADV_TENSORS}, "dtype": draw(st.sampled_from(["float32", "float64"])),
+                "junk": draw(st.sampled_from([None, -1, 1 << 40])), "extra_row": draw(st.booleans())}
+
+    return _s()
+
+
+def expand_ctc_advance_case(c):
+    """The full step-function case as a pure function of the small one (64-bit LCG streams)."""
+    import itertools
+
+    V, N, Kp, S = c["V"], c["N"], c["Kp"], c["S"]
+    elems = []
+    for n in range(N):
+        seed = c["seed"] + 7 * n
+        if c["big"] == "S":
+            # a few long, related prefixes: a base sequence, its truncations and one-token variants
+            base = dl.lcg_ints(seed, S, 0, V - 1)
+            pool = [tuple(base), tuple(base[:-1]), tuple(base[:-1] + [(base[-1] + 1) % V]), tuple(base[:-2]), tuple(base[: S // 2])]
+            ps = []
+            for p in pool:
+                if p not in ps and len(ps) < Kp:
+                    ps.append(p)
+            Kp_n = len(ps)
+        else:
+            # Kp distinct prefixes drawn from all prefixes up to the shortest sufficient length (dense: many are
+            # one-token extensions of others, so extensions merge into existing prefixes)
+            Lmax = 0
+            while reachable(V, Lmax) < Kp + Kp // 2 + 1 and Lmax < 12:
+                Lmax += 1
+            allp = [()] + [p for l in range(1, Lmax + 1) for p in itertools.product(range(V), repeat=l)]
+            keys = dl.lcg_ints(seed, len(allp), 0, 2 ** 30)
+            order = sorted(range(len(allp)), key=lambda i: (keys[i], i))
+            ps = [allp[i] for i in order[:Kp]]
+            Kp_n = len(ps)
+        if Kp_n < Kp:
+            raise AssertionError("could not build %d distinct prefixes" % Kp)
+        nb = dl.lcg_ints(seed + 1, Kp, 0, 8)
+        nb = [0 if not p else x for p, x in zip(ps, nb)]
+        b = dl.lcg_ints(seed + 2, Kp, 0, 8)
+        e = dl.lcg_ints(seed + 3, Kp * V, 1, 8)
+        ext = [e[k * V:(k + 1) * V] for k in range(Kp)]
+        nonext = dl.lcg_ints(seed + 4, V, 1, 8)
+        blank = dl.lcg_ints(seed + 5, 1, 1, 8)[0]
+        elems.append({"prefixes": [list(p) for p in ps], "nb": nb, "b": b, "ext": ext, "nonext": nonext, "blank": blank,
+                      "junk_last": 0})
+    return {"V": V, "N": N, "Kp": Kp, "elems": elems, "width": c["width"], "extra_row": c["extra_row"], "layouts": c["layouts"],
+            "junk": c["junk"], "dtype": c["dtype"]}
+
+
+@subcheck("C05", "advance_large", _advance_large_cases, 300, 4000,
+          doc="ctc_prefix_search_advance with ONE dimension at an implementation-threshold size (old width, V, width, N, or prefix "
+              "length S in 15/16/17 ... 255/256/257; thorough ... 1023/1024/1025); beam, masses and frame scores expanded from a "
+              "generated seed by a 64-bit LCG (pure function of the case); the same exact dictionary-step oracle (prefix-relation "
+              "matrix checked on sampled rows when the beam has more than 48 valid slots)",
+          required_classes=["big_Kp", "big_V", "big_width", "big_N", "big_S", "about_16", "about_64", "about_256", "merge", "prunes",
+                            "width_beyond_candidates"])
+def _advance_large_check(case):
+    if case["big"] == "S":
+        # the pool of related long prefixes has at most five members (fewer when V == 1)
+        case = dict(case, Kp=min(case["Kp"], 5 if case["V"] > 1 else 3))
+    full = expand_ctc_advance_case(case)
+    cl = _advance_core(full)
+    cl.add("big_" + case["big"])
+    size = {"Kp": case["Kp"], "V": case["V"], "width": case["width"], "N": case["N"], "S": case["S"]}[case["big"]]
+    sc = dl.size_class("x", size)
+    if sc:
+        cl.add(sc[2:])
+    return Info(nontrivial="merge" in cl or "width_beyond_candidates" in cl, classes=sorted(cl))
+
+
+def _large_cases(tier):
+    quick = tier == "quick"
+
+    @st.composite
+    def _s(draw):
+        big = draw(st.sampled_from(["T", "N", "V", "width", "T"]))
+        V, N, T = draw(st.sampled_from([2, 3, 1])), draw(st.sampled_from([2, 1])), draw(st.sampled_from([4, 3, 5, 2]))
+        width = draw(st.sampled_from([2, 3, 1, 4]))
+        fusion = draw(st.sampled_from(["none", "shallow", "valid", "none"]))
+        lens_kind = draw(st.sampled_from(["mixed", "unset", "full", "mixed"]))
+        if big == "T":
+            T = draw(dl.threshold_sizes(15, 257 if quick else 2049))
+            # mostly two or three elements of different lengths: one as long as the input, the others cut at smaller thresholds
+            N = draw(st.sampled_from([2, 2, 3, 1]))
+            lens_kind = draw(st.sampled_from(["mixed", "mixed", "unset", "full", "mixed"]))
+            if V == 1 and T <= 65 and draw(st.booleans()):
+                width = T + draw(st.sampled_from([1, 2, 5]))  # wide enough that nothing is ever pruned: exact masses
+        elif big == "N":
+            N = draw(dl.threshold_sizes(15, 129 if quick else 1025))
+        elif big == "V":
+            V = draw(dl.threshold_sizes(15, 257 if quick else 1025))
+            T = draw(st.sampled_from([2, 3, 1]))
+            width = draw(st.sampled_from([2, 1, 4, 8] + ([V, V + 1, V + 2] if V <= 129 else [])))
+        else:
+            width = draw(dl.threshold_sizes(15, 257 if quick else 1025, extra=[1025] if quick and draw(st.integers(0, 4)) == 0 else []))  # (1025 costs 2 s a case)
+            V = draw(st.sampled_from([2, 3]))
+            # input lengths on both sides of the point where the reachable prefixes outnumber the width
+            t_full = 1
+            while reachable(V, t_full) < width:
+                t_full += 1
+            T = max(1, draw(st.sampled_from([t_full, t_full - 1, t_full + 1])))
+            N = draw(st.sampled_from([1, 2]))
+        case = {"big": big, "T": T, "V": V, "N": N, "width": width, "fusion": fusion, "lens_kind": lens_kind,
+                "seed": draw(st.integers(0, 2 ** 31 - 1)), "peak": draw(st.sampled_from([12, 8, 16])),
+                "beta_q": draw(st.sampled_from([2, 1, 4, 3])) if fusion != "none" else 0,
+                "layout": draw(st.sampled_from(dl.LAYOUT_CHOICES)), "dtype": draw(st.sampled_from(["float32", "float64"])),
+                "past_fill": draw(st.sampled_from([None, "nan", "-inf", 1e30])),
+                "lens_dtype": draw(st.sampled_from(["int64", "int32"])),
+                "pattern": draw(st.sampled_from(["fresh", "shared"]))}
+        if fusion != "none":
+            case["lm_small"] = {"V": V, "M": draw(st.sampled_from([3, 5, 7, 2])), "mult": draw(st.sampled_from([2, 1, 3])),
+                                "C": draw(st.integers(1, 2)), "seed": draw(st.integers(0, 2 ** 31 - 1))}
+        return case
+
+    return _s()
+
+
+def expand_search_case(c):
+    """The full search case as a pure function of the small one.  Frames are peaky (one label - often the blank - leads by
+    `peak`/4 in the logit) so that the float32 probability-domain masses of the leading prefixes do not underflow even
+    after two thousand frames."""
+    T, V, N = c["T"], c["V"], c["N"]
+    vals = dl.lcg_ints(c["seed"], T * N * (V + 1), -12, 0)
+    lead = dl.lcg_ints(c["seed"] + 1, T * N, 0, 2 * V + 1)  # values > V mean blank: about half of the frames
+    logits = []
+    for t in range(T):
+        row = []
+        for n in range(N):
+            f = vals[(t * N + n) * (V + 1):(t * N + n + 1) * (V + 1)]
+            f[min(lead[t * N + n], V)] = c["peak"]
+            row.append(f)
+        logits.append(row)
+    if c["lens_kind"] == "unset":
+        lens = None
+    elif c["lens_kind"] == "full":
+        lens = [T] * N
+    else:
+        # lengths at / next to the thresholds below T, plus 0 and T
+        cands = sorted({0, T, max(0, T - 1), T // 2} | {x for x in dl.THRESHOLDS if x <= T})
+        picks = dl.lcg_ints(c["seed"] + 2, N, 0, len(cands) - 1)
+        lens = [cands[i] for i in picks]
+        lens[0] = T
+    case = {"T": T, "V": V, "N": N, "logits": logits, "lens": lens, "width": c["width"], "fusion": c["fusion"], "kind": "peaky",
+            "beta_q": c["beta_q"], "lm": None, "conds": None, "layout": c["layout"], "dtype": c["dtype"],
+            "past_fill": c["past_fill"], "lens_dtype": c["lens_dtype"], "lens_layout": "contiguous", "pattern": c["pattern"],
+            "omit_state": True}
+    if c["fusion"] != "none":
+        case["lm"] = declm.expand_spec(c["lm_small"])
+        C = len(case["lm"]["cond"])
+        case["conds"] = dl.lcg_ints(c["seed"] + 3, N, 0, C - 1)
+    return case
+
+
+@subcheck("C05", "large", _large_cases, 240, 2500,
+          doc="CTCPrefixSearch with ONE size at an implementation threshold: T (15/16/17 ... 129, 257; thorough ... 1025, 2049), N "
+              "(... 129 | 1025), V (... 257 | 1025) or width (... 257, 1025); peaky frames, lengths and fused HashLM expanded from "
+              "generated seeds (pure function of the case). Oracle: complete alignment enumeration only where it has <= 20000 terms, "
+              "otherwise the dictionary recursion of the same width alone (exact when it never pruned); tolerances 8*T*2^-24 "
+              "relative; for N > 6 the elements at threshold positions are judged (sampled), batched == solo for up to four",
+          required_classes=["big_T", "big_N", "big_V", "big_width", "about_16", "about_64", "about_256",
+                            "no_enumeration", "pruned_unambiguous", "never_pruned", "fusion_active", "mixed_lengths",
+                            "non_finite_past_length"])
+def _large_check(case):
+    full = expand_search_case(case)
+    N = full["N"]
+    elems = None
+    if N > 6:
+        elems = sorted({0, 1, N - 1, min(N - 1, 15), min(N - 1, 16), min(N - 1, 17)})
+    info = _search_check(full, enum_elems=elems, solo_elems=None if N <= 4 else sorted({0, N - 1, min(N - 1, 16)}))
+    cl = set(info.classes)
+    cl.add("big_" + case["big"])
+    size = {"T": case["T"], "N": N, "V": case["V"], "width": case["width"]}[case["big"]]
+    sc = dl.size_class("x", size)
+    if sc:
+        cl.add(sc[2:])
+    return Info(nontrivial=info.nontrivial, classes=sorted(cl))
